@@ -471,6 +471,14 @@ static RunRes run_plan(const CtlPlan &p) {
     uint64_t mh = fnv(std::to_string(p.seed) + "meta", 1469598103934665603ULL);
     int m0 = modes[mh % 8]; unsigned u0 = owners[(mh >> 8) % 4], g0 = owners[(mh >> 16) % 4] ? 100 : 0;
     if (p.exists) { SFile f; f.content = p.initial; f.mode = m0; f.uid = u0; f.gid = g0; C.files[PRELOAD] = f; }
+    // what an earlier run that was killed may have left next to the file: its temporary file, with whatever it had written by then (the
+    // preload file has changed since, so the left-over may be longer than anything this run writes)
+    if ((mh >> 24) % 5 == 0) {
+        SFile t; t.mode = 0600; size_t want = (mh >> 32) % 2 ? 9000 : 20 + (mh >> 34) % 300;
+        for (int k = 0; t.content.size() < want; k++) t.content += "/stale/left-over/lib" + std::to_string(k) + ".so\n";
+        if ((mh >> 40) % 2) t.content.resize(t.content.size() - 7);   // cut in the middle of a path
+        C.files[std::string(PRELOAD) + ".snoopy-tmp"] = t; R.probes.set("p_stale_temp_file", true);
+    }
     bool ex0 = p.exists; std::string cur0 = p.initial; uint64_t h = 1469598103934665603ULL;
     const bool orig_ex = p.exists; const std::string orig = p.initial;
     bool prev_enable_new = false; std::string before_enable; bool before_enable_ex = false;
